@@ -15,6 +15,7 @@ fn show(b: &[u8]) -> String { String::from_utf8_lossy(&b[..b.len().min(80)]).esc
 type Img = (u32, u32, Vec<[u8; 3]>);
 
 fn decode_both(bytes: &[u8]) -> Result<(Result<Img, String>, Result<Img, String>), String> {
+    vlib::inflight::set(bytes);
     let conv = |r: Result<Buf2<Color3>, re::util::pnm::Error>| -> Result<Img, String> {
         r.map(|b| (b.width(), b.height(), b.data().iter().map(|c| c.0).collect())).map_err(|e| format!("{e:?}"))
     };
@@ -333,6 +334,7 @@ fn run_pnm(cfg: &Cfg) -> ! {
 type ObjMesh = (Vec<[u32; 3]>, Vec<[usize; 3]>); // position bits, faces
 
 fn obj_decode(bytes: &[u8]) -> Result<(Result<ObjMesh, String>, Result<ObjMesh, String>), String> {
+    vlib::inflight::set(bytes);
     let conv = |r: Result<re::geom::mesh::Builder<()>, re_geom::io::Error>| -> Result<Result<ObjMesh, String>, String> {
         match r {
             Err(e) => Ok(Err(format!("{e:?}"))),
@@ -498,6 +500,7 @@ fn run_obj(cfg: &Cfg) -> ! {
 
 fn main() {
     silence_panics();
+    vlib::inflight::install();
     let cfg = Cfg::from_args(|s| if s == "pnm" { "C13".into() } else { "C14".into() });
     if cfg.replay.is_some() {
         replay_main(&cfg, |case, r| {
